@@ -40,6 +40,9 @@ func SupportedSignatureAlgorithms() []string {
 // SignPrivateKey creates a signature from a digest using a private key and the specified algorithm.
 // Note: when using EdDSA, the message gets hashed as part of the signing process, so users should normally pass the full message for the "digest" parameter.
 func SignPrivateKey(digest []byte, algorithm string, key jwk.Key) (signature []byte, err error) {
+	if key == nil {
+		return nil, ErrKeyTypeMismatch
+	}
 	switch algorithm {
 	case Algorithm_RS256, Algorithm_RS384, Algorithm_RS512:
 		return signPrivateKeyRSAPKCS1v15(digest, getSHAHash(algorithm), key)
@@ -115,6 +118,9 @@ func signPrivateKeyEdDSA(message []byte, key jwk.Key) ([]byte, error) {
 // VerifyPublicKey validates a signature using a public key and the specified algorithm.
 // Note: when using EdDSA, the message gets hashed as part of the signing process, so users should normally pass the full message for the "digest" parameter.
 func VerifyPublicKey(digest []byte, signature []byte, algorithm string, key jwk.Key) (valid bool, err error) {
+	if key == nil {
+		return false, ErrKeyTypeMismatch
+	}
 	// Ensure we are using a public key
 	key, err = key.PublicKey()
 	if err != nil {
